@@ -39,6 +39,7 @@ class Schedule:
         self.rng = random.Random(seed)
         self.replay = list(choices) if choices is not None else None
         self.choices = []
+        self.sizes = []
         self.victim = None
 
     def pick(self, order):
@@ -62,6 +63,7 @@ class Schedule:
         else:
             idx = self.rng.randrange(n)
         self.choices.append(idx)
+        self.sizes.append(n)
         return idx
 
     def as_dict(self):
@@ -437,6 +439,75 @@ def evaluate_function_case(inst, edge_order, schedules):
     return violations, stats, distinct
 
 
+def enumerate_function_case(inst, edge_order, cap=150):
+    """Every proposer schedule of one instance (depth-first over the scheduler's
+    choice points, stateless re-execution), up to `cap` executions.
+    Returns (violations, stats, distinct)."""
+    stats = collections.Counter()
+    violations, distinct = [], []
+    tie_free = not refmodel.has_ties(inst, 0)
+    stack = [[]]
+    first = None
+    runs = 0
+    complete = True
+    while stack:
+        if runs >= cap:
+            complete = False
+            break
+        prefix = stack.pop()
+        sch = Schedule("enumerated", 0, choices=prefix)
+        matching, info, ctx = run_function_case(inst, edge_order, sch)
+        runs += 1
+        stats["executions"] += 1
+        stats["enumerated_executions"] += 1
+        stats["pops"] += ctx.pops
+        stats["requeues"] += ctx.requeues
+        choices, sizes = ctx.schedule.choices, ctx.schedule.sizes
+        for i in range(len(prefix), len(choices)):
+            for alt in range(1, sizes[i]):
+                stack.append(choices[:i] + [alt])
+        if ctx.requeues:
+            distinct.append("f:%s:%s" % (refmodel.inst_digest(inst), runner.digest(choices)))
+        found = []
+        if ctx.livelock:
+            found.append(("C01", "livelock", {"pops": ctx.pops}))
+        elif info is not None and info.get("exc_type"):
+            found.append(("C01", "exception:%s@%s" % (info["exc_type"], info["frame"]), info))
+        elif info is not None:
+            found.append(("C01", "malformed-result", info["problems"]))
+        else:
+            found.extend(judge_matching(inst, matching))
+            if not found:
+                opt_found, _state = judge_optimal(inst, matching)
+                found.extend(opt_found)
+            if not found and tie_free:
+                if first is None:
+                    first = (ctx.schedule.as_dict(), matching)
+                elif matching != first[1]:
+                    violations.append({
+                        "property": "C02", "class": "order-dependent",
+                        "signature": {"level": "function", "class": "order-dependent"},
+                        "detail": {"a": sorted(first[1].items()), "b": sorted(matching.items())},
+                        "replay": {"property": "C02", "level": "function", "instance": inst_to_json(inst),
+                                   "edge_order": [list(e) for e in edge_order],
+                                   "schedules": [first[0], ctx.schedule.as_dict()],
+                                   "violation": {"class": "order-dependent"}}})
+        for prop, cls, detail in found:
+            violations.append({
+                "property": prop, "class": cls, "detail": detail,
+                "signature": {"level": "function", "class": cls},
+                "replay": {"property": prop, "level": "function", "instance": inst_to_json(inst),
+                           "edge_order": [list(e) for e in edge_order],
+                           "schedules": [ctx.schedule.as_dict()], "violation": {"class": cls}}})
+        if violations:
+            break
+    stats["instances_enumerated"] += 1
+    if complete and not violations:
+        stats["instances_all_schedules_explored"] += 1
+    stats["enumerated_instances_capped"] += 0 if complete else 1
+    return violations, stats, distinct
+
+
 def function_job(job):
     """A chunk of function-level instances."""
     seed, count, n_sched = job["seed"], job["count"], job["n_sched"]
@@ -452,6 +523,11 @@ def function_job(job):
         v, st, di = evaluate_function_case(inst, edge_order, schedules)
         stats.update(st)
         distinct.extend(di)
+        if i % 5 == 0 and len(inst["storms"]) <= 5:
+            v2, st2, di2 = enumerate_function_case(inst, edge_order, job.get("enum_cap", 150))
+            stats.update(st2)
+            distinct.extend(di2)
+            v = v + v2
         for x in v:
             x["replay"]["seed"] = s
         violations.extend(v[:2])
